@@ -171,6 +171,7 @@ func init() {
 					switch {
 					case IsLoadOf(acked)(f.Cond) && !f.Taken:
 					case IsCallOf(ab)(f.Cond) && !f.Taken:
+					case isGiveUpCall(c, f.Cond) && !f.Taken:
 					case isLoopBound(f.Cond):
 					default:
 						okAll = false
@@ -853,4 +854,14 @@ func laterIterationValue(phi *ssa.Phi) (constant.Value, bool) {
 		return constant.MakeInt64(3), true
 	}
 	return nil, false
+}
+
+// isGiveUpCall: v is a call of one of the chunk's give-up predicates (see giveUpPredicates).
+func isGiveUpCall(c *RuleCtx, v ssa.Value) bool {
+	for _, p := range giveUpPredicates(c) {
+		if IsCallOf(p)(v) {
+			return true
+		}
+	}
+	return false
 }
